@@ -35,6 +35,11 @@ def getattr_value(E, path, o, name, frame):
         if name == "__dict__":
             raise Unsupported("__dict__ access")
         return MISSING
+    if isinstance(o, Sym) and name == "py_val" and E.U.ctor_name(z3.simplify(o.term)) is None \
+            and z3.simplify(o.term).get_id() not in path.tags:
+        # the Python value of a node whose kind this path has not fixed (List.py_val recurses through its items, without
+        # bound): an opaque function of the node; handlers of a known literal kind still execute the real property
+        return ExtVal("py_val", [o])
     if isinstance(o, Sym) and E.U.ctor_name(z3.simplify(o.term)) is None \
             and z3.simplify(o.term).get_id() not in path.tags:
         lazy = lazy_node_attr(E, path, o, name)
@@ -139,6 +144,10 @@ def lazy_node_attr(E, path, o, name):
         return MISSING
     # a class member of the same name on some kind (property / method) needs the kind: fall back to forking
     if any(name in facts.ast_classes[k]["members"] for k in facts.kinds):
+        if name == "py_val":
+            # the Python value of a node of undetermined kind (List.py_val recurses through its items): an opaque
+            # function of the node -- handlers of a known literal kind still execute the real property
+            return ExtVal("py_val", [o])
         return MISSING
     has = U.is_node(t, kinds)
     if not E.branch(path, has):
